@@ -47,7 +47,7 @@ def absorb(ctx, d, label):
 
 
 def run(ctx):
-    n = 400 if ctx.quick else 8000
+    n = 300 if ctx.quick else 6000
     d = ctx.harness("c27", args=["-n", n])
     if d is None:
         return
